@@ -25,16 +25,22 @@ def partitions(tier, seed):
             parts.append(sp.S(PROP, "C07", k, n, budget=25))
     sk = sp.struct_keys()
     if quick:
-        sk = sp.rotate(sk, seed, len(sk) // 3)
+        fixed = [k for k in sk if sp.short(k) in ("TPML_PCR_SELECTION", "TPML_DIGEST", "TPML_CC", "TPML_ALG", "TPML_HANDLE", "TPM2B_ECC_POINT")]
+        sk = sorted(set(sp.rotate(sk, seed, len(sk) // 3) + fixed))
     for k in sk:
         m = sp.min_size(k)
         lo, hi = (max(0, m - 1), min(m + 2, 8)) if quick else (0, min(m + 4, 12))
         for n in range(lo, hi + 1):
             parts.append(sp.S(PROP, "C07", k, n, budget=30 if quick else 150))
+    from . import synth
+
+    for k in synth.keys():
+        for n in range(0, 9 if quick else 12):
+            parts.append(sp.S(PROP, "C07", k, n, budget=40 if quick else 200))
     G = sp.gen()
     ccs = sp.cc_list()
     if quick:
-        ccs = sp.rotate(ccs, seed + 7, 10)
+        ccs = sorted(set(sp.rotate(ccs, seed + 7, 8) + [c for c in ccs if sp.cc_name(c) in ("PCR_Read", "GetCapability")]))
     for cc in ccs:
         for label, data in G.commands(cc, minimal=quick):
             tr = sp.trace_of(sp.cmd_key(), data)
